@@ -131,6 +131,8 @@ class Repo:
         _norm.PKG_CONSTS.clear()
         for mn, tr in _inline.PKG.items():
             _norm.PKG_CONSTS[mn] = _norm.module_constants(tr)
+        _norm.SIGS.clear()
+        _norm.SIGS.update(_norm.signatures(list(_inline.PKG.values())))
         _norm.CLASS_CONSTS.clear()
         _norm.CLASS_CONSTS.update(_norm.class_constants(list(_inline.PKG.values())))
         for fn in sorted(os.listdir(pkgdir)):
